@@ -664,3 +664,138 @@ def o_c12_after_reconnect(scn, obs, runner):
             fails.append(dict(op=i, why="after reconnecting to a healthy device, %s raised %s (state from the broken session leaked into the new one)" % (op["op"], o["res"][:80])))
             break
     return fails
+
+
+# ---------------------------------------------------------------------------------------------------------------
+# Oracles evaluated BY LEAN: the executable specification functions of AdbModel/Spec.lean (proved equal to the functions the
+# theorems are stated against: C01_spec_*, C07_spec_*, C08_spec_*) applied to what the implementation was observed to receive / send.
+# ---------------------------------------------------------------------------------------------------------------
+def _packets_full(c, lo, hi):
+    """Device packets whose last byte lies in the inbound byte range (lo, hi]: [(cmd, a0, a1, data)]."""
+    stream = b"".join(raw for need, raw in c.segs)
+    out, i = [], 0
+    while i + 24 <= len(stream):
+        ln = int.from_bytes(stream[i + 12:i + 16], "little")
+        end = i + 24 + ln
+        if lo < end <= hi:
+            out.append((bytes(stream[i:i + 4]), int.from_bytes(stream[i + 4:i + 8], "little"), int.from_bytes(stream[i + 8:i + 12], "little"), bytes(stream[i + 24:end])))
+        if end > hi:
+            break
+        i = end
+    return out
+
+
+def _op_ranges(scn, obs):
+    """per op: (conn index, inbound offset before, after, local ids allocated by the op, store length before)"""
+    out = []
+    prev_in, prev_lid, prev_store = {}, scn.get("preset", {}).get("lid", 0), 0
+    for op, o in zip(scn["ops"], obs):
+        ci = o.get("conn", -1)
+        lo = 0 if op["op"] == "connect" else prev_in.get(ci, 0)
+        hi = o.get("inoff", 0)
+        out.append((ci, lo, hi, lids_of_op(prev_lid, o["lid"]), prev_store))
+        prev_in[ci] = hi
+        prev_lid = o["lid"]
+        prev_store = o.get("storelen", 0)
+    return out
+
+
+KNOWN_CMDS = (b"AUTH", b"CLSE", b"CNXN", b"OKAY", b"OPEN", b"SYNC", b"WRTE")
+
+
+def o_lean_c01(scn, obs, runner, driver):
+    """C01 by the Lean reference semantics `Spec.streamItems` on the device packets the implementation consumed during the call."""
+    fails, lines, idx = [], [], []
+    for i, ((op, o), (ci, lo, hi, lids, store0)) in enumerate(zip(zip(scn["ops"], obs), _op_ranges(scn, obs))):
+        if op["op"] not in ("shell", "exec_out", "streaming_shell") or not res_ok(o) or len(lids) != 1 or store0 != 0:
+            continue
+        if not (0 <= ci < len(runner.link.used)):
+            continue
+        pk = _packets_full(runner.link.used[ci], lo, hi)
+        if any(p[0] not in KNOWN_CMDS for p in pk):
+            continue
+        lines.append("spec streamitems lid=%d pkts=%s" % (lids[0], ",".join("%s:%d:%d:%s" % (p[0].decode(), p[1], p[2], hx(p[3])) for p in pk) or "-"))
+        idx.append(i)
+    for i, r in zip(idx, driver.ask_many(lines)):
+        op, o = scn["ops"][i], obs[i]
+        if not r.startswith("ok items=["):
+            fails.append(dict(op=i, why="%s returned normally but the Lean reference semantics finds no complete OKAY…CLSE conversation in the packets consumed (%s)" % (op["op"], r[:60])))
+            continue
+        items = [unhx(x) for x in r.split("items=[")[1].split("]")[0].split(",") if x]
+        if op["op"] == "streaming_shell":
+            want = "items:[" + ",".join(("str:" + hx(py_decode(w).encode("utf8"))) if op.get("decode", True) else ("bytes:" + hx(w)) for w in items) + "]"
+        elif op.get("decode", True):
+            want = "str:" + hx(py_decode(b"".join(items)).encode("utf8"))
+        else:
+            want = "bytes:" + hx(b"".join(items))
+        if res_val(o) != want:
+            fails.append(dict(op=i, why="%s returned %s; Lean's Spec.streamItems on the consumed device packets gives %s" % (op["op"], res_val(o)[:100], want[:100])))
+    return fails
+
+
+def _reassembled(pk, lid):
+    return b"".join(p[3] for p in pk if p[0] == b"WRTE" and p[2] == lid)
+
+
+def o_lean_sync(scn, obs, runner, driver):
+    """C08/C09 by the Lean reference parser `Spec.records` on the reassembled WRTE payloads of the call's stream."""
+    fails, lines, idx = [], [], []
+    for i, ((op, o), (ci, lo, hi, lids, store0)) in enumerate(zip(zip(scn["ops"], obs), _op_ranges(scn, obs))):
+        if op["op"] not in ("pull", "list", "stat") or not res_ok(o) or not lids or store0 != 0 or not (0 <= ci < len(runner.link.used)):
+            continue
+        pk = _packets_full(runner.link.used[ci], lo, hi)
+        lid = lids[-1] if not (op["op"] == "pull" and op.get("cb", "none") != "none") else lids[0]   # with a callback the stat stream is opened second
+        fmt = op["op"]
+        stop = "STAT" if fmt == "stat" else "DONE"
+        lines.append("spec records fmt=%s stop=%s bytes=%s" % (fmt, stop, hx(_reassembled(pk, lid))))
+        idx.append(i)
+    for i, r in zip(idx, driver.ask_many(lines)):
+        op, o = scn["ops"][i], obs[i]
+        recs = [x.split(":") for x in r[3:].split("|") if x]
+        if op["op"] == "pull":
+            if not recs or recs[-1][0] != "DONE" or any(x[0] != "DATA" for x in recs[:-1]):
+                fails.append(dict(op=i, why="pull returned normally; Lean's reference parser reads the reply as %s" % [x[0] for x in recs][:8]))
+                continue
+            want = hx(b"".join(unhx(x[2]) for x in recs[:-1]))
+            got = o["sink"] if o["sink"] != "N" else "-"
+            if got != want:
+                fails.append(dict(op=i, why="pull wrote %d bytes; Lean's reference parser finds %d bytes of DATA before DONE" % (len(unhx(got)), len(unhx(want)))))
+        elif op["op"] == "list":
+            if not recs or recs[-1][0] != "DONE" or any(x[0] != "DENT" for x in recs[:-1]):
+                fails.append(dict(op=i, why="list returned normally; Lean's reference parser reads the reply as %s" % [x[0] for x in recs][:8]))
+                continue
+            want = "listing:[" + ",".join("%s:%s" % (x[2], ":".join(x[1].split("/"))) for x in recs[:-1]) + "]"
+            if res_val(o) != want:
+                fails.append(dict(op=i, why="list returned %s; Lean's reference parser gives %s" % (res_val(o)[:120], want[:120])))
+        else:
+            if len(recs) != 1 or recs[0][0] != "STAT":
+                fails.append(dict(op=i, why="stat returned normally; Lean's reference parser reads the reply as %s" % [x[0] for x in recs][:4]))
+                continue
+            want = "stat:" + ":".join(recs[0][1].split("/"))
+            if res_val(o) != want:
+                fails.append(dict(op=i, why="stat returned %s; Lean's reference parser gives %s" % (res_val(o), want)))
+    return fails
+
+
+def o_lean_c07(scn, obs, runner, driver):
+    """C07 by Lean: the DATA chunk lengths the implementation sent must be `Spec.chunksOf (maxChunkSize maxdata) content`."""
+    fails = []
+    files = scn.get("files", {})
+    for i, (op, o) in enumerate(zip(scn["ops"], obs)):
+        if op["op"] != "push" or not res_ok(o) or op["src"][0] == "dir":
+            continue
+        sim = sim_of(runner, o)
+        if sim is None:
+            continue
+        content = files[op["src"][1]]
+        k = int(driver.ask("spec maxchunk %d" % o["maxdata"]).split()[1])
+        want = [int(x) for x in driver.ask("spec chunks k=%d bytes=%s" % (k, hx(content)))[3:].split(",") if x]
+        # DATA chunk lengths on the LAST sync stream whose SEND names this path
+        got = None
+        for l in sorted(set(a0 for who, cmd, a0, a1, d in sim.log if who == "host" and cmd == b"OPEN" and d.startswith(b"sync:"))):
+            recs, _ = parse_host_sync(sim, l)
+            if recs and recs[0][0] == b"SEND" and recs[0][2].rpartition(b",")[0] == op["path"]:
+                got = [n for rid, n, data in recs if rid == b"DATA"]
+        if got is not None and got != want:
+            fails.append(dict(op=i, why="push sent DATA chunks of lengths %r…; Lean's Spec.chunksOf(%d) of the %d-byte content gives %r…" % (got[:6], k, len(content), want[:6])))
+    return fails
